@@ -338,5 +338,8 @@ func c20Gen(r *vhRng) string {
 	if r.Chance(1, 400) {
 		return fmt.Sprintf("const threshold %d", r.Pick(1, 2, 3, 4, 5, 6, 7, 10, 100, 1+r.Intn(1000)))
 	}
+	if r.Chance(1, 25) {
+		return c20GenBF(r)
+	}
 	return c20Random(r)
 }
